@@ -39,6 +39,7 @@ type pipeCase struct {
 	Files     map[string]string `json:"files"`
 	ProtoRoot string            `json:"proto_root"`
 	Lang      *langCase         `json:"lang"` // a J5Lang construct (printed with langFiles)
+	Rules     *rlReflectCase    `json:"rules"` // a J5Rules declaration: every rule / annotation of the catalogue (printed with rlFileText)
 	Cls       string            `json:"cls"`
 }
 
@@ -839,14 +840,30 @@ func pipelineDriver(raw json.RawMessage) *Out {
 				cls = "lang:" + c.Lang.Container + ":" + kindFamily(c.Lang.Kind)
 			}
 		}
+		if c.Rules != nil {
+			files = map[string]string{rlFile: rlFileText([]rlUnit{{Msg: "Subject", Decl: &c.Rules.Decl}}, c.Rules.Opts)}
+			if cls == "" {
+				cls = "rules:" + c.Rules.Decl.Card + ":" + rlFamily(c.Rules.Decl.Kind)
+			}
+		}
 		var compiled []linker.File
 		var err error
+		compile := func(f func() error) {
+			// a compiler panic is property C07's business: the program is skipped here
+			if e, _ := stage("compile", f); e != nil {
+				err = e
+			}
+		}
 		if files != nil {
 			if cls == "" {
 				cls = "bundle"
 			}
 			var res map[string]linker.Files
-			res, _, err = compileBundle(newMemFiles(files), nil)
+			compile(func() error {
+				var e error
+				res, _, e = compileBundle(newMemFiles(files), nil)
+				return e
+			})
 			var pkgs []string
 			for p := range res {
 				pkgs = append(pkgs, p)
@@ -862,7 +879,11 @@ func pipelineDriver(raw json.RawMessage) *Out {
 			var b schemaBundle
 			b, err = parseAST(raw)
 			if err == nil {
-				compiled, _, err = compileAST(b)
+				compile(func() error {
+					var e error
+					compiled, _, e = compileAST(b)
+					return e
+				})
 			}
 		}
 		if err != nil {
